@@ -13,8 +13,18 @@ PROP = dict(
           "(lengths 0..2 also with DEFAULT_ALPHABET passed explicitly; the quick tier sweeps one quarter of the 3-byte strings for the URL-safe "
           "alphabet); every 4- and 8-character text over {A,Q,=,*,-,/} through base64_decode for both alphabets (quick tier: 8-character texts "
           "over {A,=,*,-,/}); every single-character substitution (256 values x every position), truncation and one-character extension of "
-          "valid encodings of 0..48 bytes; every byte string of length 0..2 through rot13, escape_url (both flags), escape_controls (both "
-          "modes), escape_quotes; ports 0..65535 for eight hosts. Random (rapidcheck + Hypothesis): byte strings up to 2 KiB (uniform, "
+          "valid encodings of 0..48 bytes; every byte string of length 0..3 through rot13, escape_url (both flags), escape_controls (both "
+          "modes), escape_quotes (lengths 0..2 case by case, the 2^24 three-byte strings per function/flag in a hot loop over the same clauses); "
+          "ports 0..65535 for eight hosts. Dictionary: about 115 well-known multi-byte sequences (UTF-8/16/32/7 byte order marks, U+2028/2029, NEL, "
+          "NBSP, zero-width and bidi marks, U+FFFD and non-characters, overlong / surrogate / truncated / beyond-U+10FFFF UTF-8, the first and last "
+          "character of each UTF-8 length, CRLF and controls, ANSI/OSC terminal sequences, percent / backslash / entity escape syntaxes, quotes, "
+          "URL pieces) enumerated alone, at the start / middle / end of six short texts, tripled and in every ordered pair through every function "
+          "(base64 with the three alphabet arguments, rot13, the escapers with both flags, and as hosts x ports {0,1,80,65535}), and spliced (1..3 "
+          "of them, at the start / end / inside) into a third of the random inputs of every function. Netloc feedback (netloc_fb): the host of "
+          "the pair under test is derived from what render_netloc itself prints for a first pair - half of the time the degenerate empty host, "
+          "where it prints a placeholder or the bare port - by 8 derivations (part before / after the colon, whole text, substring, one byte "
+          "replaced or inserted, upper case, doubled); enumerated for the empty host and 3 regular hosts x 10 port classes x 8 derivations x 10 "
+          "port classes x default port {0, 8080}. Random (rapidcheck + Hypothesis): byte strings up to 2 KiB (uniform, "
           "special-character alphabets, xorshift filler), base64 texts built from valid encodings with 0..3 edits biased to the last quad, "
           "alphabet-only texts with 0..2 trailing '=' (non-zero trailing bits), mixed-alphabet texts; hosts up to 200 colon-free bytes. "
           "Concurrent callers: 2..6 threads, each calling every function of the property (base64 encode/decode both alphabets incl. one "
@@ -22,8 +32,9 @@ PROP = dict(
           "bytes, mostly) or 10 times on its own input (uniform bytes, special-character alphabet, or three byte values of the thread's own) "
           "and comparing with results fixed before the threads start. "
           "Non-trivial: every concurrent-callers case; decode inputs containing padding or a character outside the alphabet; encode inputs with length mod 3 != 0; "
-          "rot13 inputs containing an ASCII letter; escaper inputs in which at least one byte must be escaped; netloc pairs with port != 0. "
-          "Distinct = distinct case encodings; the two hot loops (2^24 three-byte strings, 6^8 eight-character texts) register one entry "
+          "rot13 inputs containing an ASCII letter; escaper inputs in which at least one byte must be escaped; netloc pairs with port != 0; "
+          "netloc_fb cases whose first stage has the empty host. "
+          "Distinct = distinct case encodings; the hot loops (2^24 three-byte strings per function, 6^8 eight-character texts) register one entry "
           "per block, so the distinct count is a lower bound."),
     assumptions=["base64 validity predicate (RFC 4648 + the property statement): length % 4 == 0, every character in the alphabet, '=' only in "
                  "the last position or in the last two positions; non-zero unused trailing bits are accepted (Python accepts them too) and ignored",
@@ -32,6 +43,8 @@ PROP = dict(
                  "escape_url must leave RFC 3986 unreserved characters literal (equivalently: equal urllib.parse.quote with safe='=&' plus "
                  "'/' unless escape_slash) - this is what makes the design's mutant 'drop ~ from the safe set' observable",
                  "escape_quotes does not escape backslashes, so its output is decoded back only for backslash-free inputs",
+                 "netloc_fb: what render_netloc prints for the empty host is outside the round-trip clause and is not asserted; it is only used, made colon-free, as a host "
+                 "like any other non-empty colon-free string (an empty derivation falls back to the whole text)",
                  "the functions are pure functions of their arguments, hence reentrant: concurrent calls on different inputs each return the "
                  "single-threaded result for their own input (expected values: the in-harness references for base64/rot13/netloc; for the escapers "
                  "a single-threaded call that first passed the complete single-threaded oracle, so no particular hex-digit case is demanded)",
@@ -43,8 +56,8 @@ PROP = dict(
                "(validate=True), codecs rot13, urllib.parse.unquote_to_bytes/quote through a C++ serve shim; exhaustive small-scope "
                "enumeration + rapidcheck + Hypothesis"),
     level_text=("Exploration: the real functions (ASan+UBSan build of the working tree) are run on every input of the small scopes named in the "
-                "property (3-byte strings, 4/8-character texts over a 6-symbol alphabet, single-character corruptions, 2-byte strings for "
-                "the escapers, all ports) and on ~10^5..10^6 generated inputs; each result is compared with an independent implementation. "
+                "property (3-byte strings for base64, rot13 and the escapers, 4/8-character texts over a 6-symbol alphabet, single-character "
+                "corruptions, all ports) and on ~10^5..10^6 generated inputs; each result is compared with an independent implementation. "
                 "Finds any defect with a witness in those scopes; not a proof for longer inputs."),
     level_note="Trusts the in-harness reference (cross-checked against Python by the second stage), Python's base64/binascii/codecs/urllib, and glibc's C-locale isalnum.",
 )
